@@ -52,17 +52,39 @@ pub struct FilterObs {
 pub struct World {
     pub specs: Vec<SchemeSpec>,
     pub schemes: Vec<Scheme>,
+    /// the same schemes built through the other public construction routes (see `build_scheme_route`)
+    pub alts: Vec<Vec<Scheme>>,
     pub ctxs: Vec<CtxSpec>,
 }
 
 impl World {
     pub fn new(specs: Vec<SchemeSpec>, ctxs: Vec<CtxSpec>) -> World {
         let schemes = specs.iter().map(build_scheme).collect();
+        let alts = specs.iter().map(|s| (1..=3).filter(|&r| r < 3 || (s.funcs.is_empty() && s.lists.is_empty() && s.nne)).map(|r| crate::mk::build_scheme_route(s, r)).collect::<Vec<_>>()).collect();
         World {
             specs,
             schemes,
+            alts,
             ctxs,
         }
+    }
+
+    /// The filter (or value expression) parsed, compiled and executed on a scheme built through another construction
+    /// route must give what it gives on the main scheme: `Some(results)` per context, `None` when it does not parse.
+    pub fn alt_filter_runs(&self, sch: usize, route: usize, max: u16, src: &str, ctxs: &[usize]) -> Option<Vec<Option<bool>>> {
+        let scheme = &self.alts[sch - 1][route];
+        let spec = &self.specs[sch - 1];
+        let mut p = FilterParser::new(scheme);
+        p.set_max_nesting_depth(max);
+        let star = STAR.with(|s| s.get());
+        if star >= 0 {
+            p.wildcard_set_star_limit(star as usize);
+        }
+        let ast = catch_unwind(AssertUnwindSafe(|| p.parse(src).ok())).ok()??;
+        let f = catch_unwind(AssertUnwindSafe(|| ast.compile())).ok()?;
+        Some(ctxs.iter().map(|&c| {
+            catch_unwind(AssertUnwindSafe(|| f.execute(&build_ctx(scheme, spec, &self.ctxs[c - 1])).ok())).ok().flatten()
+        }).collect())
     }
     pub fn parser(&self, sch: usize, max: u16) -> FilterParser<'_> {
         let mut p = FilterParser::new(&self.schemes[sch - 1]);
@@ -232,6 +254,19 @@ pub fn observe_filter(
         }
     }
     let ctxobs = CTXOBS.with(|c| c.borrow().iter().map(|(p, a, n)| (p.clone(), a.clone(), n.map(|x| x as i64).unwrap_or(-1))).collect());
+    // the scheme built through the other construction routes: the same verdict and results
+    for route in 0..w.alts[sch - 1].len() {
+        let alt = w.alt_filter_runs(sch, route, max, src, ctxs);
+        for (i, run) in runs.iter_mut().enumerate() {
+            let same = match &alt {
+                None => false,
+                Some(rs) => run.out != "ok" || rs[i] == Some(run.res),
+            };
+            if !same {
+                run.out = format!("scheme-construction-route-{}-disagrees", route + 1);
+            }
+        }
+    }
     FilterObs {
         ok: true,
         out: "ok".into(),
@@ -396,7 +431,6 @@ pub fn observe_canon(
             // the C API route (default settings only): parse, serialize, hash, then compile - which consumes the
             // handle, the usual life of a parsed filter in a host program - and release the compiled filter
             let (chash, cok) = if max == 128 {
-                use std::hash::Hasher as _;
                 let fs = wirefilter_ffi::Scheme::from(scheme_of(w, sch).clone());
                 let r = wirefilter_ffi::wirefilter_parse_filter(&fs, src.as_ptr().cast(), src.len());
                 match r.ast {
@@ -405,9 +439,7 @@ pub fn observe_canon(
                         let sr = wirefilter_ffi::wirefilter_serialize_filter_to_json(&a);
                         let same_json = crate::ffi_bytes(sr.json.ptr as *const u8, sr.json.len) == text.as_bytes();
                         let hr = wirefilter_ffi::wirefilter_get_filter_hash(&a);
-                        let mut fh = fnv::FnvHasher::default();
-                        fh.write(text.as_bytes());
-                        let ok = same_json && hr.hash == fh.finish();
+                        let ok = same_json && crate::ffi::c_hash_ok(text.as_bytes(), hr.hash);
                         let c = wirefilter_ffi::wirefilter_compile_filter(a);
                         if let Some(f) = c.filter {
                             wirefilter_ffi::wirefilter_free_compiled_filter(f);
